@@ -214,10 +214,10 @@ pub fn run(rep: &mut Report) {
         non-trivial = every case; distinct = distinct case".to_owned();
     rep.assume("the start-up size is the size of the file right after the appender was built (after truncation in truncate mode)");
     let thorough = rep.tier == "thorough";
-    run_cases(rep, "single", if thorough { 20_000 } else { 1_500 }, single);
+    run_cases(rep, "single", if thorough { 30_000 } else { 5_000 }, single);
     let saved = std::env::var("L4V_JOBS").ok();
     std::env::set_var("L4V_JOBS", "3");
-    run_cases(rep, "concurrent", if thorough { 1_500 } else { 80 }, concurrent);
+    run_cases(rep, "concurrent", if thorough { 2_000 } else { 200 }, concurrent);
     match saved {
         Some(v) => std::env::set_var("L4V_JOBS", v),
         None => std::env::remove_var("L4V_JOBS"),
